@@ -332,7 +332,7 @@ def run_claims(pid, rep, prog, tier):
         X.install_clone_override(prog, m)
         return m
     h.models_cls = models
-    res = e2.run_harness(prog, h, keep_raw=True, max_witnesses=12)
+    res = e2.run_with_raw(prog, h)
     for model, r in res.raw_witnesses[:12]:
         # prefer a witness with a frozen clock: it can be replayed against the real clock
         s = z3.Solver()
